@@ -1025,3 +1025,62 @@ theorem C05_weak_pkg_witness :
     (newFilesX [x fc [99] [] [], x { fb with deps := [] } [99, 46, 77, 46, 122] [] []]).toOption = none ∧
     (newFilesX [x fc [99] [] [], x { fb with deps := [[99], [99]] } [98] [] []]).toOption = none ∧
     (newFilesX [x fc [99] [] [], x fb [98] [] []]).toOption.isSome = true := by decide
+
+
+/-! ## Message types are those of THIS resolution's registry (history of resolutions; seeded regression C05-m11) -/
+
+/-- Whatever was resolved before (earlier polls of the same target with other definitions, other targets in the same
+    process) and whatever comes after: the k-th delivered description is `deliverStep` of the k-th descriptor set alone. -/
+theorem C05_method_types_from_this_registry (pre post : List HStep) (s : HStep) :
+    (deliverHistory (pre ++ s :: post))[pre.length]? = some (deliverStep s) ∧
+    ∀ svcs, deliverStep s = .ok svcs → ∀ sv ∈ svcs, ∀ tm ∈ sv.2,
+      tm.inputDef = lookupDef s.defs tm.method.input ∧ tm.outputDef = lookupDef s.defs tm.method.output := by
+  refine ⟨by simp [deliverHistory], ?_⟩
+  intro svcs h sv hsv tm htm
+  unfold deliverStep at h
+  split at h
+  · simp at h
+  · simp at h
+    subst h
+    simp only [List.mem_map] at hsv
+    obtain ⟨s0, _, rfl⟩ := hsv
+    simp only [List.mem_map] at htm
+    obtain ⟨m, _, rfl⟩ := htm
+    simp [typeMethod]
+
+/-- in particular: the same descriptor set delivers the same typed description wherever it stands in a history -/
+theorem C05_history_stateless (h1 h2 : List HStep) (s : HStep) :
+    (deliverHistory (h1 ++ [s])).getLast? = (deliverHistory (h2 ++ [s])).getLast? := by
+  simp [deliverHistory]
+
+namespace GB.C05.ExtWitness
+def item : Name := [112, 46, 73]
+def reply : Name := [112, 46, 82]
+def hm : DMethod :=
+  { name := [71], input := item, output := reply, clientStreaming := false, serverStreaming := false, http := none }
+def hf : DFile :=
+  { name := [112], deps := [], messages := [item, reply], services := [{ name := [112, 46, 83], methods := [hm] }] }
+def hstep (itemFields : Fields) : HStep :=
+  { files := [x hf [112] [] []], defs := [(item, itemFields), (reply, [])], wanted := [[112, 46, 83]] }
+def inputDefs (r : List (Except Err (List (Name × List TypedMethod)))) : List (List Fields) :=
+  r.map fun e => match e with
+    | .ok svcs => svcs.flatMap fun sv => sv.2.map (fun tm => tm.inputDef.getD [])
+    | .error _ => []
+end GB.C05.ExtWitness
+
+open GB.C05.ExtWitness in
+/-- negative witness for the seeded regression (message factories interned by full name): redeploy Item{id} → Item{id,title};
+    the code's history delivers the new definition at the second poll, the interned variant still the old one. -/
+theorem C05_interned_types_stale :
+    inputDefs (deliverHistory [hstep [([105], 0)], hstep [([105], 0), ([116], 1)]]) =
+      [[[([105], 0)]], [[([105], 0), ([116], 1)]]] ∧
+    inputDefs (deliverHistoryInterned [] [hstep [([105], 0)], hstep [([105], 0), ([116], 1)]]) =
+      [[[([105], 0)]], [[([105], 0)]]] := by decide
+
+/-- regenerated fact: the only package-level variables of bridgedesc and reflection are the empty-message singleton and
+    the version list — no map, sync.Map, pool or channel that could carry descriptors from one resolution to the next
+    (which `deliverHistory = map deliverStep` relies on) -/
+theorem C05_facts_no_package_state :
+    GB.Generated.c05PackageVars =
+      ["bridgedesc/types.go: emptyMessageInstance Message", "reflection/resolver.go: reflectionMethods := []string"] := by
+  decide
